@@ -34,7 +34,5 @@ TogetherInv == (pc = "done" /\ ~out.rb.empty) => TravelTogetherOK(Ab, eps, BS, o
 FlagsInv   == (pc = "done" /\ ~out.rb.empty) => BlockFlagsOK(Ab, eps, BS, out.rb.strong)
 \* min_aggregate = 2*BS+1 scalar unknowns: aggregates of fewer than three nodes are dissolved
 MinInv     == (pc = "done" /\ ~out.rm.empty) =>
-                 PartitionMinOK(DefPointwise(Ab, BS), eps, BS, 2 * BS + 1,
-                                [ip1 \in 1..N |-> IF out.rm.id[(ip1 - 1) * BS + 1] >= 0 THEN out.rm.id[(ip1 - 1) * BS + 1] \div BS ELSE Removed],
-                                out.rm.count \div BS)
+                 TravelMinOK(Ab, eps, BS, 2 * BS + 1, out.rm.id, out.rm.count)
 =============================================================================
